@@ -34,6 +34,9 @@ type Case struct {
 	Pkgs []Pkg `json:"pkgs"`
 	// the last package is fetched as a byte-identical copy of the first (own address, same files)
 	Clone bool `json:"clone,omitempty"`
+	// how the target directory is named: "" absolute | "vialink" through a symlinked parent |
+	// "relative" relative to the working directory at NewBuilder, which then changes
+	Target string `json:"target,omitempty"`
 }
 
 func addrOf(i int) string { return fmt.Sprintf("https://example.com/pkg%d.tgz", i) }
@@ -128,8 +131,17 @@ func checkSanitised(c Case) error {
 	}
 	target := filepath.Join(arena, "bundle")
 	os.Mkdir(target, 0755)
+	skip := func(rel string) bool { return rel == "bundle" }
+	if c.Target == "vialink" {
+		os.Remove(target)
+		os.MkdirAll(filepath.Join(arena, "real", "bundle"), 0755)
+		os.Symlink("real", filepath.Join(arena, "alias"))
+		target = filepath.Join(arena, "alias", "bundle")
+		skip = func(rel string) bool { return rel == "real/bundle" }
+	}
 	// the process's working directory and temporary directory are part of "outside the target"
 	os.Mkdir(filepath.Join(arena, "cwd"), 0755)
+	os.Mkdir(filepath.Join(arena, "cwd", "bundle"), 0755) // what the target's relative name means from the later working directory
 	os.Mkdir(filepath.Join(arena, "tmp"), 0777)
 	oldWd, _ := os.Getwd()
 	oldTmp := os.Getenv("TMPDIR")
@@ -139,7 +151,7 @@ func checkSanitised(c Case) error {
 		os.Chdir(oldWd)
 		os.Setenv("TMPDIR", oldTmp)
 	}()
-	before, err := fsx.Snapshot(arena, func(rel string) bool { return rel == "bundle" })
+	before, err := fsx.Snapshot(arena, skip)
 	if err != nil {
 		return fmt.Errorf("harness: %v", err)
 	}
@@ -173,7 +185,13 @@ func checkSanitised(c Case) error {
 	if planted {
 		ev.NonTrivial(c, "planted-link-or-special-file")
 	}
-	b, err := sourcebundle.NewBuilder(target, fetcher{c, arena}, nil)
+	builderTarget := target
+	if c.Target == "relative" {
+		os.Chdir(arena)
+		builderTarget = "bundle"
+	}
+	b, err := sourcebundle.NewBuilder(builderTarget, fetcher{c, arena}, nil)
+	os.Chdir(filepath.Join(arena, "cwd"))
 	if err != nil {
 		return fmt.Errorf("harness: %v", err)
 	}
@@ -186,7 +204,7 @@ func checkSanitised(c Case) error {
 	if panicked != nil {
 		return fmt.Errorf("builder panicked: %v", panicked)
 	}
-	after, err := fsx.Snapshot(arena, func(rel string) bool { return rel == "bundle" })
+	after, err := fsx.Snapshot(arena, skip)
 	if err != nil {
 		return fmt.Errorf("harness: %v", err)
 	}
@@ -324,7 +342,7 @@ var hazardNodes = []fsx.Node{
 	{Path: "prod.tfvars", Kind: "file", Content: "IN:vars", Mode: 0644},
 }
 
-var ruleLines = []string{"secret.txt", "cache/", "*.lnk", "logs/", "!logs/a.log", "build/", "*.tfvars", "pipe", "sub/", "!sub/keep.txt", "/ln-*", "zz-*", "*.log", "self", "chain*"}
+var ruleLines = []string{"/secret.txt", "/sub/keep.txt", "/logs/", "secret.txt", "cache/", "*.lnk", "logs/", "!logs/a.log", "build/", "*.tfvars", "pipe", "sub/", "!sub/keep.txt", "/ln-*", "zz-*", "*.log", "self", "chain*"}
 
 // combos: hazards and rules that only matter together (a link validated before
 // a rule removes its target; an ignored entry followed by siblings that still
@@ -405,6 +423,7 @@ func TestPropSanitised(t *testing.T) {
 			c.Pkgs[0].Deps = append(c.Pkgs[0].Deps, n-1)
 			c.Clone = true
 		}
+		c.Target = rapid.SampledFrom([]string{"", "", "", "vialink", "relative"}).Draw(t, "target")
 		return c
 	})
 }
